@@ -163,7 +163,7 @@ CLAIMED = {
     ),
     "C20": dict(
         category="exploration",
-        text="The real signer (state machine, runner, certifier with the production delayer/retrier/http publisher chain, single signer, epoch service, sqlite stores on disk, upkeep, KES keys from the repository fixture) talks through the real AggregatorHttpClient to a harness-owned loopback axum aggregator that records every register-signer / register-signatures request with the chain epoch at receipt, is scripted per op (down for n requests, stale epoch settings, round closed, publish failures, and the chain moving to the next epoch while the answer to the signer's next request of a chosen route is in flight, i.e. INSIDE a cycle) and never calls the offset helpers under test (offsets hard-coded from the protocol description). 24 canonical + about 600 generated histories per quick run (3-6 epochs, <=40 ops: ticks, epoch changes, chain progress, faults, others registering subsets, restarts on the same stores; stakes and parameters change every epoch so a wrong offset changes keys) with a healing epilogue. Oracle: at most one acknowledged publication per (entity, beacon); every signature verifies under the harness-derived signer set / stakes / parameters of the registrations acknowledged in E-2 with the key registered then, and its message seed equals the harness derivation; no signature before eligibility; bounded progress of signing (after restart and in every undisturbed window) and of registration (healthy aggregator => a registration acknowledged in the epoch within the cycles needed + 2). Found one genuine defect (repaired: epoch change between the epoch check and the registration transition). 14 of 15 mutants caught (the 15th is equivalent in the domain); seeded changes: see SENSITIVITY.md (one needs the aggregator ahead of the signer's node, outside the generated domain).",
+        text="The real signer (state machine, runner, certifier with the production delayer/retrier/http publisher chain, single signer, epoch service, sqlite stores on disk, upkeep, KES keys from the repository fixture) talks through the real AggregatorHttpClient to a harness-owned loopback axum aggregator that records every register-signer / register-signatures request with the chain epoch at receipt, is scripted per op (down for n requests, stale epoch settings, round closed, publish failures, and the chain moving to the next epoch while the answer to the signer's next request of a chosen route is in flight, i.e. INSIDE a cycle); a 'ghost' pool with stake in the aggregator's view only can register (progress clauses are suspended while it is announced, acceptance is not) and never calls the offset helpers under test (offsets hard-coded from the protocol description). 24 canonical + about 600 generated histories per quick run (3-6 epochs, <=40 ops: ticks, epoch changes, chain progress, faults, others registering subsets, restarts on the same stores; stakes and parameters change every epoch so a wrong offset changes keys) with a healing epilogue. Oracle: at most one acknowledged publication per (entity, beacon); every signature verifies under the harness-derived signer set / stakes / parameters of the registrations acknowledged in E-2 with the key registered then, and its message seed equals the harness derivation; no signature before eligibility; bounded progress of signing (after restart and in every undisturbed window) and of registration (healthy aggregator => a registration acknowledged in the epoch within the cycles needed + 2). Found one genuine defect (repaired: epoch change between the epoch check and the registration transition). 14 of 15 mutants caught (the 15th is equivalent in the domain); seeded changes: see SENSITIVITY.md (one needs the aggregator ahead of the signer's node, outside the generated domain).",
         note="Trusted: mithril-stm/mithril-common crypto and key registration, the repository's chain/immutable/scanner/digester doubles, entity-specific message parts, phi_f = 1 (signer keys come from OsRng). Crashes happen only between cycles; epoch changes inside a cycle happen right after an aggregator answer; faults mean 'request not processed' (no lost acknowledgements); progress clauses assume acknowledged registrations in E-2 and E-1.",
         technique="stateful property-based testing: generated fault histories on the real signer, scripted recording fake aggregator, model-based oracle with hard-coded protocol offsets (proptest)",
         design_ref="DESIGN.md §2 C20",
